@@ -53,6 +53,8 @@ def cases(draw, tier):
         else:
             bulk = "matrix"
             unit = draw(st.sampled_from([1.0, 1.0, 1.0, 1e-3, 1e-6, 1e3]))  # data in small / large units
+            if draw(st.integers(0, 7)) == 0:
+                unit = "int16"  # rail-to-rail readings of a 16-bit converter, handed over as an int16 array
     mil = D.weighted(draw, [(2, st.just(2 * msl)), (6, st.integers(2 * msl, 2 * msl + 40)), (1, st.just(200))])
     scale = draw(st.sampled_from([0.0, 0.2, 0.5, 1.0, 2.0, None]))
     if isinstance(sc, dict) and sc["cls"] in ("TableChangeScore", "FunctionChangeScore") and scale is not None:
@@ -72,7 +74,11 @@ def cases(draw, tier):
         sc["table"] = np.asarray(flat).reshape(n + 1, n + 1, n + 1).tolist()
     elif bulk == "matrix":
         X, _ = draw(D.structured_matrix(n, p, boundary_positions=(msl, n - msl)))
-        if unit != 1.0:
+        if unit == "int16":
+            X = [[float(max(-32768, min(32767, round(v * 3000)))) for v in row] for row in X]
+            case["as_int16"] = True
+            case["n_train"], case["history"] = None, None
+        elif unit != 1.0:
             X = [[v * unit for v in row] for row in X]
     case["X"] = X
     return case
@@ -104,6 +110,8 @@ def check(case):
         Xtrain = Xtrain.copy()
         Xpred = Xtrain
     history = case.get("history") if case.get("n_train") != "same_buffer" else None
+    if case.get("as_int16"):
+        Xtrain = Xpred = X.astype(np.int16)  # the detector gets the narrow integers, the reference model the same numbers as floats
     with sut("SeededBinarySegmentation.fit/predict"):
         det = K.build(K.detector_spec("SeededBinarySegmentation", params))
         if history == "scorer_prefit_wide" and not K.prefit_scorer_wide(det, Xtrain):
@@ -192,6 +200,8 @@ def check(case):
         classes.append("buffer_refilled_after_fit")
     if history:
         classes.append(f"history={history}")
+    if case.get("as_int16"):
+        classes.append("int16_full_range")
     if mil == 2 * msl:
         classes.append("mil=2msl")
     if n == 2 * msl:
@@ -207,6 +217,80 @@ def check(case):
     return {"nontrivial": bool(cpts) and int(above.sum()) >= 2, "classes": classes}
 
 
+# ------------------------------------------------------------------ very long series
+
+
+def long_cells(tier):
+    """Series of millions of samples with max_interval_length = n: candidate intervals of more than 2^21.7 samples
+    (products of three lengths beyond the int64 range), around a million candidates. Seeded noise with mean shifts."""
+    cells = [(3_400_000, 1, None, 50_000, 2.0)]  # a few hundred candidates; with msl = 5 there are 1.3 million (thorough)
+    if tier != "quick":
+        cells += [(5_000_000, 1, {"cls": "CUSUM"}, 20_000, 2.0), (3_600_000, 1, {"cls": "L2Cost"}, 1000, 1.7), (2_200_000, 2, None, 5000, 2.0),
+                  (3_400_000, 1, None, 5, 2.0)]
+    for i, (n, p, sc, msl, growth) in enumerate(cells):
+        yield {"n": n, "p": p, "seed": 7000 + i, "params": {"change_score": sc, "threshold_scale": 1.0, "level": 0.01, "min_segment_length": msl,
+                                                             "max_interval_length": n, "growth_factor": growth}}
+
+
+def check_long(case):
+    n, p, params = case["n"], case["p"], case["params"]
+    msl = params["min_segment_length"]
+    rng = np.random.Generator(np.random.PCG64(case["seed"]))
+    X = rng.standard_normal((n, p))
+    X[n // 2 + 2:] += 0.5
+    X[n // 5: n // 5 + 40_000] -= 0.8
+    with sut("SeededBinarySegmentation.fit/predict (very long series)"):
+        det = K.build(K.detector_spec("SeededBinarySegmentation", params)).fit(X)
+        y = det.predict(X)
+        table = det.scores
+        thr = float(det.threshold_)
+    cpts = [int(v) for v in y["ilocs"].tolist()]
+    starts = table["start"].to_numpy().astype(np.int64)
+    ends = table["end"].to_numpy().astype(np.int64)
+    amax = table["argmax_cpt"].to_numpy().astype(np.int64)
+    sc = table["score"].to_numpy().astype(float)
+    lens = ends - starts
+    if len(table) == 0 or np.any(starts < 0) or np.any(ends > n) or np.any(lens < 2 * msl) or np.any(lens > n):
+        raise Violation("candidate interval outside [0,n] or with length outside [2*msl, n]", n=n, msl=msl)
+    if lens.max() < n // 2:
+        raise Violation("no candidate interval of the order of max_interval_length = n", longest=int(lens.max()), n=n)
+    if not np.all(np.isfinite(sc)):
+        i = int(np.argmax(~np.isfinite(sc)))
+        raise Violation("a candidate interval has a non-finite score", interval=[int(starts[i]), int(ends[i])], score=float(sc[i]))
+    # per-interval maximum for the 12 longest candidates and a seeded sample of 300 others, with an independent scorer
+    oracle = K.build(oracle_scorer_spec(params["change_score"])).fit(X)
+    order = np.argsort(-lens, kind="stable")
+    chosen = list(order[:12]) + [int(i) for i in rng.choice(len(table), size=min(300, len(table)), replace=False)]
+    for i in chosen:
+        s_, e_ = int(starts[i]), int(ends[i])
+        top, arg = -np.inf, -1
+        for lo in range(s_ + msl, e_ - msl + 1, 1_000_000):  # in blocks: a few 10^6 splits at a time
+            splits = np.arange(lo, min(lo + 1_000_000, e_ - msl + 1))
+            vals = np.asarray(oracle.evaluate(np.column_stack((np.full(splits.size, s_), splits, np.full(splits.size, e_))))).sum(axis=1)
+            j = int(np.argmax(vals))
+            if vals[j] > top:
+                top, arg = float(vals[j]), int(splits[j])
+        tol = 1e-9 * (abs(top) + K.score_magnitude(params["change_score"], X, e_ - s_))
+        if abs(sc[i] - top) > tol:
+            raise Violation("interval score is not the maximum of the column-summed change score over admissible splits",
+                            interval=[s_, e_], reported=float(sc[i]), maximum=top, maximiser=arg)
+        if not (s_ + msl <= amax[i] <= e_ - msl):
+            raise Violation("reported maximiser is not an admissible split of its interval", interval=[s_, e_], argmax_cpt=int(amax[i]))
+        v_at = float(np.asarray(oracle.evaluate(np.array([[s_, int(amax[i]), e_]]))).sum())
+        if v_at < top - tol:
+            raise Violation("reported maximiser does not attain the interval maximum", interval=[s_, e_], argmax_cpt=int(amax[i]),
+                            value=v_at, maximum=top)
+    # greedy model on the above-threshold part of the reported table
+    above = sc > thr
+    outcomes, complete = ref.seeded_greedy_outcomes(starts[above], ends[above], sc[above], amax[above], thr)
+    if cpts != sorted(set(cpts)):
+        raise Violation("changepoints are not sorted and distinct", changepoints=cpts[:20])
+    if complete and frozenset(cpts) not in outcomes:
+        raise Violation("reported changepoints are not an outcome of the greedy above-threshold selection", reported=cpts[:20],
+                        greedy_outcomes=[sorted(o)[:20] for o in list(outcomes)[:3]], threshold=thr)
+    return {"nontrivial": bool(cpts), "classes": [f"n>={n // 1_000_000}e6", f"candidates={len(table)}", f"changepoints={min(len(cpts), 9)}"]}
+
+
 FACETS = [
     Facet(name="seeded_binseg", check=check, strategy=cases,
           rule=("n in [2msl,60], msl from the scorer's minimum size, max_interval_length in [2msl, 2msl+40] (boundary made likely), "
@@ -215,4 +299,10 @@ FACETS = [
                 "Table/Function change scores (ties, negative and multi-column values); detector optionally fitted on other data (shorter / longer / the same buffer refilled afterwards) and optionally with a past (scorer pre-fitted on wider data; earlier predict on the caller's array / frame, then refilled in place); "
                 "non-trivial = >=1 changepoint and >=2 intervals above the threshold"),
           n_quick=800, n_thorough=12000, shards_quick=8, shards_thorough=16),
+    Facet(name="long_series", kind="enumerate", enumerate=long_cells, check=check_long, exhaustive=True, time_limit=900,
+          rule=("series of 3.4 million samples (thorough: up to 5 million, p up to 2) with max_interval_length = n (candidates of millions of "
+                "samples; min_segment_length 50000 -> a few hundred candidates, thorough also 5 -> 1.3 million): all scores finite, the 12 longest and 300 sampled candidates compared with the maximum over all "
+                "their splits from an independent scorer, changepoints an outcome of the greedy model on the above-threshold candidates; "
+                "1 cell (thorough: 5), non-trivial = >= 1 changepoint"),
+          shards_quick=1, shards_thorough=5, max_samples=1),
 ]
